@@ -295,12 +295,7 @@ func runPaths(m *mp.Model, r *rng.R, n int, arcs bool, fonts text.FontConfigurat
 		}
 		// correspondence (outside the model's domain: a multi-group arc whose FIRST group has a zero radius —
 		// findEllipseCenter then writes NaN/Inf radii back into the slot every later group is drawn with)
-		outside := false
-		for _, c := range cmds {
-			if (c.letter|0x20) == 'a' && len(c.groups) > 1 && (c.groups[0][0] == 0 || c.groups[0][1] == 0) {
-				outside = true
-			}
-		}
+		outside := zeroRadiusArc(model.ops)
 		switch {
 		case outside:
 			out.Hit(stream + ":corr-skipped-NaN-radii")
@@ -429,6 +424,8 @@ func runMalformed(m *mp.Model, r *rng.R, n int, out *res.Result) error {
 			md := cmpMode{lineTol: tol20, cubicTol: tol20}
 			if hasNonFinite(impl) {
 				out.Hit("malformed:non-finite-skipped")
+			} else if zeroRadiusArc(model.ops) {
+				out.Hit("malformed:corr-skipped-NaN-radii")
 			} else if mm := walk(impl, model.ops, md); mm != nil {
 				bad = mm.String()
 			}
@@ -439,6 +436,17 @@ func runMalformed(m *mp.Model, r *rng.R, n int, out *res.Result) error {
 		}
 	}
 	return nil
+}
+
+// zeroRadiusArc: the model drew a later arc group with a first group whose radius is zero; the code has
+// written NaN/Inf radii back into that slot (outside the rational model).
+func zeroRadiusArc(ms []mop) bool {
+	for _, m := range ms {
+		if m.k == 'A' && (m.f[0] == 0 || m.f[1] == 0) {
+			return true
+		}
+	}
+	return false
 }
 
 func hasNonFinite(os []op) bool {
